@@ -52,7 +52,7 @@ CHECKS = {
          ASSUME + "Process-level nondeterminism (map seeds, scheduling) is sampled by repeated fresh processes."),
  "C16": ("E7 gogen-fs",
          "runtime monitor of the real cmd/cogen under `go generate`: directory snapshots (path, mode, sha256) of module root and parent before/after, strace file-syscall log (thorough), go build / go test / go vet -tags co, second-run snapshot",
-         "Exploration: 22 (thorough 56) module layouts (incl. the directive in a plain doc.go run by a bare `go generate ./...`, generated files of other runs / other GOOS / nested modules / testdata that must stay untouched, a dot import of a sub-package generated in the same run, imports only used by dead code (in one or in two files) whose package registers itself through init or through a variable initialiser, a blank import in a package with and without a co test file, directories inside the package that look like the tool's temp dir, types / constants of a sub-package generated in the same run, co test file only in a sub-package, directive only in a sub-package, a co file with a foreign generated-code header, a main package with a //go:debug directive that is run after generation, plain-sibling variables yielded by generators and observed by a plain test) and three history steps (edit the co file; edit a plain sibling; turn a constant of a generated sub-package into a variable), each compared with a generation from scratch; the snapshot difference must be exactly the expected derived files with the prescribed header; nothing else created, modified, deleted or left behind; package builds/tests/vets afterwards; second run byte-identical.",
+         "Exploration: 20 (thorough 54) module layouts (incl. the directive in a plain doc.go run by a bare `go generate ./...`, generated files of other runs / other GOOS / nested modules / testdata that must stay untouched, a dot import of a sub-package generated in the same run, imports only used by dead code (in one or in two files) whose package registers itself through init or through a variable initialiser, a blank import in a package with and without a co test file, directories inside the package that look like the tool's temp dir, types / constants of a sub-package generated in the same run, co test file only in a sub-package, directive only in a sub-package, a co file with a foreign generated-code header, a main package with a //go:debug directive that is run after generation, plain-sibling variables yielded by generators and observed by a plain test) and three history steps (edit the co file; edit a plain sibling; turn a constant of a generated sub-package into a variable), each compared with a generation from scratch; the snapshot difference must be exactly the expected derived files with the prescribed header; nothing else created, modified, deleted or left behind; package builds/tests/vets afterwards; second run byte-identical.",
          ASSUME + "Layouts are small synthetic packages; the go tool sets GOFILE etc. exactly as for a user."),
  "C17": ("E4 stack-depth",
          "runtime monitor: runtime.Callers depth sampled inside loop bodies/conditions of compiled generators and raw seq loops at iteration indices 2..n, one child process per configuration; bounded-growth oracle",
